@@ -1,0 +1,31 @@
+//go:build verif
+
+// Contracts for package dirhash, read by /verif/engine (govc).  Comment-only.
+
+package dirhash
+
+//@ # FILECONTENT(name): the bytes of the file called name (what open(name) delivers)
+//@ spec func FILECONTENT(name string) string
+//@ # the documented summary of the first i files of fs: one line per file,
+//@ # hex SHA-256 of the content, two spaces, the name, newline (rendered by fmt with "%x  %s\n")
+//@ spec func SUMM(fs []string, i int) string decreases i =
+//@     if i <= 0 then "" else SUMM(fs, i - 1) + FPR2("%x  %s\n", SHA(FILECONTENT(fs[i-1])), fs[i-1])
+
+//@ func Hash1
+//@   funcparam open(name string) (rc io.ReadCloser, err error)
+//@     allocates
+//@     ensures err == nil ==> rc != nil && CONTENT(rc) == FILECONTENT(name)
+//@   end
+//@   let SORTED = files @before loop 0
+//@   modifies ghost.WRITTEN
+//@   # the caller's slice is not modified (a copy is sorted): semantic frame on []string
+//@   ensures [C19] h1_formula: result1 == nil ==> result0 == "h1:" + B64(SHA(SUMM(SORTED, len(SORTED))))
+//@   ensures [C19] sorted_copy: result1 == nil ==> len(SORTED) == len(files) && (forall i int, j int :: 0 <= i && i < j && j < len(SORTED) ==> !(SORTED[j] < SORTED[i]))
+//@   # every hashed name is newline-free: a name containing a newline makes the call fail
+//@   ensures [C19] newline_refused: result1 == nil ==> (forall i int :: 0 <= i && i < len(SORTED) ==> !strings.Contains(SORTED[i], "\n"))
+//@   loop 0:
+//@     invariant 0 - 1 <= @idx && @idx < len(files) && h != nil && files == SORTED
+//@     invariant WRITTEN[h] == SUMM(files, @idx + 1)
+//@     invariant forall k int :: 0 <= k && k <= @idx ==> !strings.Contains(files[k], "\n")
+//@     decreases len(files) - @idx
+//@   props C19
